@@ -42,20 +42,41 @@ def endless(offset):
     k += 1
 
 
+def fmt_of(spec):
+  """Device sample format of a player spec: kind "finite-h" plays 16 bit
+  integers (dfmt="h"), "finite-i" / "finite-b" 32 / 8 bit ones; the plain
+  kinds play the default 32 bit floats."""
+  return spec[0].split("-")[1] if "-" in spec[0] else "f"
+
+
+def isample(k, fmt):
+  """Distinct integer samples that fit the format."""
+  return (k * 7 + 1) % 120 - 60 if fmt == "b" else (k * 37 + 11) % 30000 - 15000
+
+
+def play_kwargs(spec):
+  kw = {"chunk_size": spec[2], "channels": spec[3]}
+  if fmt_of(spec) != "f":
+    kw["dfmt"] = fmt_of(spec)
+  return kw
+
+
 def expected_bytes(spec, nchunks):
   """First nchunks chunks the device must receive for a player spec."""
   kind, length, cs, ch = spec
   per = cs * ch
+  fmt = fmt_of(spec)
   out = []
   for c in range(nchunks):
     vals = []
     for j in range(per):
       idx = c * per + j
       if kind == "endless" or idx < length:
-        vals.append(sample(idx + 3 * cs))
+        vals.append(sample(idx + 3 * cs) if fmt == "f" else
+                    isample(idx + 3 * cs, fmt))
       else:
-        vals.append(0.0)
-    out.append(struct.pack("%df" % per, *vals))
+        vals.append(0.0 if fmt == "f" else 0)
+    out.append(struct.pack("%d%s" % (per, fmt), *vals))
   return out
 
 
@@ -71,7 +92,9 @@ def make_iterable(spec):
   kind, length, cs, ch = spec
   if kind == "endless":
     return endless(3 * cs)
-  vals = [sample(i + 3 * cs) for i in range(length)]
+  fmt = fmt_of(spec)
+  vals = [sample(i + 3 * cs) if fmt == "f" else isample(i + 3 * cs, fmt)
+          for i in range(length)]
   return vals if length % 2 else iter(vals)
 
 
@@ -81,7 +104,9 @@ def rspec(rng):
   ch = rng.choice([1, 1, 2])
   if rng.random() < 0.3:
     return ("endless", 0, cs, ch)
-  return ("finite", rng.randint(0, 3 * cs * ch + rng.randint(0, cs)), cs, ch)
+  kind = "finite" if rng.random() < 0.8 else \
+         rng.choice(["finite-h", "finite-i", "finite-b"])
+  return (kind, rng.randint(0, 3 * cs * ch + rng.randint(0, cs)), cs, ch)
 
 
 def rhistory(rng, nplayers, wait):
@@ -179,7 +204,7 @@ def play_history(specs, initial, hist, wait, style, handles, stopped, flow,
 
   def start(i):
     kind, length, cs, ch = specs[i]
-    th = aio.play(make_iterable(specs[i]), chunk_size=cs, channels=ch)
+    th = aio.play(make_iterable(specs[i]), **play_kwargs(specs[i]))
     handles.append(th)
   if style == "with":
     aio.__enter__()
@@ -299,7 +324,7 @@ def run_special(ctx, case):
       _, specA, specB, order, idle = case[:5]
       aioA, aioB = lazy_io.AudioIO(False), lazy_io.AudioIO(True)
       for aio, spec in ((aioA, specA), (aioB, specB)):
-        aio.play(make_iterable(spec), chunk_size=spec[2], channels=spec[3])
+        aio.play(make_iterable(spec), **play_kwargs(spec))
       for _ in range(idle):
         sch.switch("idle")
       for aio in ((aioA, aioB) if order == "A-first" else (aioB, aioA)):
@@ -309,7 +334,7 @@ def run_special(ctx, case):
       _, specs, recs, wait, idle = case[:5]
       aio = lazy_io.AudioIO(wait)
       for spec in specs:
-        aio.play(make_iterable(spec), chunk_size=spec[2], channels=spec[3])
+        aio.play(make_iterable(spec), **play_kwargs(spec))
       streams = [aio.record(chunk_size=cs) for cs, _, _ in recs]
       recorded = []
       for st, (cs, nread, stop_first) in zip(streams, recs):
@@ -338,12 +363,11 @@ def run_special(ctx, case):
       _, specs, new_spec, wait, idle = case[:5]
       aio = lazy_io.AudioIO(wait)
       for spec in specs:
-        aio.play(make_iterable(spec), chunk_size=spec[2], channels=spec[3])
+        aio.play(make_iterable(spec), **play_kwargs(spec))
 
       def second_control_thread():
         try:
-          aio.play(make_iterable(new_spec), chunk_size=new_spec[2],
-                   channels=new_spec[3])
+          aio.play(make_iterable(new_spec), **play_kwargs(new_spec))
           outcome["play"] = "accepted"
         except RuntimeError:
           outcome["play"] = "raised"
@@ -390,7 +414,7 @@ def run_special(ctx, case):
         sorted(flows, key=lambda f: pas.index(f[0]._pa)),
         (case[1], case[2]), (False, True)):
       flow = {"terminated_at_close": [term], "play_after_close": "raised"}
-      judge(ctx, case, [spec], set(), wait and spec[0] == "finite", flow,
+      judge(ctx, case, [spec], set(), wait and spec[0] != "endless", flow,
             pa=aio._pa)
     return True
   if kind == "rec":
@@ -566,15 +590,16 @@ def judge(ctx, case, specs, stopped, wait, flow, pa=None, inputs=0):
                     got=len(writes), total=total)
       return True
     for c, (w, exp) in enumerate(zip(writes, want)):
-      if w[2] != cs or len(w[1]) != cs * ch * 4:
+      fmt = fmt_of(spec)
+      if w[2] != cs or len(w[1]) != cs * ch * struct.calcsize(fmt):
         ctx.violation("device-stream/chunk-size", case, player=i, chunk=c,
                       nframes=w[2], nbytes=len(w[1]), chunk_size=cs)
         return True
       if w[1] != exp:
         ctx.violation("device-stream/lost-duplicated-or-reordered", case,
                       player=i, chunk=c, got=list(struct.unpack(
-                        "%df" % (cs * ch), w[1])),
-                      want=list(struct.unpack("%df" % (cs * ch), exp)))
+                        "%d%s" % (cs * ch, fmt), w[1])),
+                      want=list(struct.unpack("%d%s" % (cs * ch, fmt), exp)))
         return True
     must_complete = wait and i not in stopped and total is not None
     if must_complete:
@@ -585,6 +610,8 @@ def judge(ctx, case, specs, stopped, wait, flow, pa=None, inputs=0):
         return True
       if total and length % (cs * ch):
         ctx.count("padded-last-chunk-checked")
+        if fmt_of(spec) != "f":
+          ctx.count("padded-last-chunk-checked:integer-format")
     elif total is not None and len(writes) == total:
       ctx.count("complete-delivery-observed")
     else:
@@ -594,6 +621,7 @@ def judge(ctx, case, specs, stopped, wait, flow, pa=None, inputs=0):
 
 def finish(ctx):
   ctx.need("scenarios", 500)
+  ctx.need("padded-last-chunk-checked:integer-format", 20)
   ctx.need("free-running-scenarios", 100)
   ctx.need("special:two", 100)
   ctx.need("special:conc", 100)
